@@ -152,23 +152,53 @@ def check_importers(chk, prog, env, model):
             bad += 1
             chk.add(Finding('C07.memory.' + k, f or unit, fn2, '%s[%s]' % (k, key), msg, line=l))
         chk.sample({'importer': fn, 'paths': len(res), 'deref_obligations': rule.obligations})
+        if kind == 'asym':
+            # exit classes of the importer (result zero/non-zero, flag, message, key stored), this time with the crypto library's own
+            # allocations failing too: the summary used for jwk_process_one is built from what the importer can really return
+            class Q(JwkRule):
+                lib_alloc_may_fail = True
+                check_null = False
+                check_uninit = False
+                check_own = False
+            q = Q(env)
+            it2 = Interp(prog, unit, model=model, rule=q, budget=1500000, hooks=H.std_hooks(env))
+            st2, item2, jwk2 = item_state(env)
+            for s2, rv2 in it2.run(fn, [Ref(jwk2), Ref(item2)], st2):
+                if isinstance(rv2, Int):
+                    rcs = ['zero' if rv2.v == 0 else 'nonzero']
+                else:
+                    rcs = ['zero', 'nonzero']
+                fl2 = flag_of(s2, item2)
+                ms2 = msg_state(it2, s2, item2, 'error_msg')
+                stored = isinstance(s2.mem.get((item2, 'provider_data')), Ref)
+                for rc in rcs:
+                    IMPORTER_CLASSES.add((rc, fl2, ms2, stored))
     return total, bad, cn, cb
+
+
+IMPORTER_CLASSES = set()
 
 
 def importer_summaries(env, kinds):
     """outcome summaries of the importers for the run of jwk_process_one (validated by check_importers)"""
     def asym(it, st, args, node):
         item = args[1]
-        s1 = st.clone()
-        o = s1.newobj('EVP_PKEY@importer')
         from model import own_alloc
-        own_alloc(it, s1, 'EVP_PKEY', Ref(o), node, 'importer')
-        s1.mem[(item.loc, 'provider_data')] = Ref(o)
-        s1.mem[(item.loc, 'provider')] = Int(1)
-        s2 = st
-        s2.mem[(item.loc, 'error')] = Int(1)
-        s2.mem[(item.loc, 'error_msg#')] = 'nonempty'
-        return [(s1, Int(0)), (s2, Int(-1))]
+        classes = sorted(IMPORTER_CLASSES, key=repr) or [('zero', 0, 'empty', True), ('nonzero', 1, 'nonempty', False)]
+        outs = []
+        for rc, fl, ms, stored in classes:
+            s1 = st.clone()
+            if stored:
+                o = s1.newobj('EVP_PKEY@importer')
+                own_alloc(it, s1, 'EVP_PKEY', Ref(o), node, 'importer')
+                s1.mem[(item.loc, 'provider_data')] = Ref(o)
+                s1.mem[(item.loc, 'provider')] = Int(1)
+            if fl == 1:
+                s1.mem[(item.loc, 'error')] = Int(1)
+            if ms in ('nonempty', 'unknown'):
+                s1.mem[(item.loc, 'error_msg#')] = ms
+            outs.append((s1, Int(0) if rc == 'zero' else Int(-1)))
+        return outs
 
     def octet(it, st, args, node):
         item = args[1]
@@ -224,11 +254,90 @@ def check_process_one(chk, prog, env, model):
     return rule, it, res, viol
 
 
-def run(chk, prog, tier):
-    env = Env(prog)
-    model = build_model()
-    prog.func(UNIT, 'jwks_load_strn')
+FLAG_POS = {'json_loads': 1, 'json_loadb': 2, 'json_loadf': 1, 'json_load_file': 1}
+
+
+def check_loader_flags(chk, prog, model, rulename='C07.loader-flags', units=None, allow_any=True):
+    """every jansson load call of the JWK loaders (and, for C04/C15, of the token parser and the JSON setter) decodes with flags that do
+    not widen what counts as a JSON document: no JSON_DISABLE_EOF_CHECK (text after the value), no JSON_ALLOW_NUL; JSON_DECODE_ANY only
+    where the caller checks the shape itself; sibling loaders use the same flags"""
+    import effects
+    from props.c04 import jansson_flag
+    EOFC, NUL, ANY = jansson_flag('JSON_DISABLE_EOF_CHECK'), jansson_flag('JSON_ALLOW_NUL'), jansson_flag('JSON_DECODE_ANY')
+    eff = effects.Effects(prog)
+    n = 0
+    bad = 0
+    seen = {}
+    for k, info in sorted(eff.funcs.items(), key=repr):
+        if units is not None and k[0] not in units:
+            continue
+        if k[0].startswith('tools/'):
+            continue
+        for tgt, node in info['callsites']:
+            if tgt[1] not in FLAG_POS:
+                continue
+            n += 1
+            arg = node['inner'][1 + FLAG_POS[tgt[1]]]
+            it = Interp(prog, k[0], model=model)
+            try:
+                r = it.ev(arg, State())
+            except Exception:
+                r = []
+            fl = r[0][1] if len(r) == 1 and isinstance(r[0][1], Int) else None
+            if fl is None:
+                # a flags variable: take the union of the constants it is assigned in the function
+                consts = set()
+                for x in _walk(info['decl']):
+                    if x.get('kind') == 'IntegerLiteral':
+                        pass
+                vals = []
+                for x in _walk(info['decl']):
+                    if x.get('kind') in ('VarDecl',) and x.get('inner') and 'flags' in (x.get('name') or ''):
+                        try:
+                            rr = Interp(prog, k[0], model=model).ev(x['inner'][-1], State())
+                            if len(rr) == 1 and isinstance(rr[0][1], Int):
+                                vals.append(rr[0][1].v)
+                        except Exception:
+                            pass
+                    if x.get('kind') == 'CompoundAssignOperator' and x.get('opcode') == '|=':
+                        try:
+                            rr = Interp(prog, k[0], model=model).ev(x['inner'][1], State())
+                            if len(rr) == 1 and isinstance(rr[0][1], Int):
+                                vals.append(rr[0][1].v)
+                        except Exception:
+                            pass
+                if not vals:
+                    raise AnalysisBroken('%s: flags of %s in %s are not constant' % (rulename, tgt[1], k[1]))
+                v = 0
+                for x in vals:
+                    v |= x
+                fl = Int(v)
+            seen[(k[0], k[1], tgt[1])] = fl.v
+            for bit, nm in ((EOFC, 'JSON_DISABLE_EOF_CHECK'), (NUL, 'JSON_ALLOW_NUL')) + (() if allow_any else ((ANY, 'JSON_DECODE_ANY'),)):
+                if fl.v & bit:
+                    bad += 1
+                    chk.add(Finding(rulename, k[0], k[1], 'flags[%s]' % nm,
+                                    '%s() is called with %s: input that is not one complete JSON document of the expected kind is accepted'
+                                    % (tgt[1], nm), line=node.get('_l')))
+    chk.rule(rulename, 'jansson load calls: no JSON_DISABLE_EOF_CHECK / JSON_ALLOW_NUL' + ('' if allow_any else ' / JSON_DECODE_ANY'),
+             n, bad, floor=1)
+    return seen
+
+
+def _walk(n):
+    stack = [n]
+    while stack:
+        x = stack.pop()
+        yield x
+        for c in x.get('inner', ()):
+            if isinstance(c, dict):
+                stack.append(c)
+
+
+def items_and_importers(chk, prog, env, model, memory=True):
+    """importers as entries + jwk_process_one over their exit classes: memory findings (optional) and the per-item contract"""
     prog.func(UNIT, 'jwk_process_one')
+    before = len(chk.findings)
     total, bad, item_n, item_bad = check_importers(chk, prog, env, model)
     rule, it, res, viol = check_process_one(chk, prog, env, model)
     total += rule.obligations + len(res)
@@ -242,6 +351,24 @@ def run(chk, prog, tier):
             seen.add((kind, msg))
             item_bad += 1
             chk.add(Finding('C07.item-contract', UNIT, 'jwk_process_one', kind, msg))
+    if not memory:
+        chk.findings[before:] = [f for f in chk.findings[before:] if not f.rule.startswith('C07.memory')]
+    return total, bad, item_n, item_bad
+
+
+def check_item_contract(chk, prog, env, model):
+    """the per-item clause alone (shared with C14): a flagged item always carries a non-empty message"""
+    total, bad, item_n, item_bad = items_and_importers(chk, prog, env, model, memory=False)
+    chk.rule('C07.item-contract', 'every exit of the key importers and of jwk_process_one: error flag with non-empty message, or known kty with key '
+                                  'material stored', item_n, item_bad, floor=20)
+
+
+def run(chk, prog, tier):
+    env = Env(prog)
+    model = build_model()
+    chk.guard('loader flags', check_loader_flags, chk, prog, model, units=(UNIT,))
+    prog.func(UNIT, 'jwks_load_strn')
+    total, bad, item_n, item_bad = items_and_importers(chk, prog, env, model)
     # ---- loaders with jwk_process_one summarised: memory rules + shape
     shape_n = 0
     shape_bad = 0
